@@ -168,6 +168,11 @@ func firstDiffLine(a, b string) (string, string) {
 	return fmt.Sprintf("%d lines", len(la)), fmt.Sprintf("%d lines", len(lb))
 }
 
+// refLoadCap bounds reference loads (fresh instance, alone). Loading is a
+// protobuf decode plus a walk over the levels; even legacy conversions of 10^5
+// keys stay two orders of magnitude below this.
+const refLoadCap = 30_000_000
+
 type c05Probe struct {
 	permCalls, permNonIdentity int64
 	checkedLoads, loadsOverContent, remarshals, builds int64
@@ -212,22 +217,38 @@ func (c *C05Scn) lifecycle(y func(), pr *c05Probe) (outs []string, viol *Violati
 			y()
 		}
 	}
+	// capCall bounds a call by a step budget when the lifecycle runs alone (under
+	// the scheduler the hook belongs to the simulator and the solo run has
+	// already judged termination).
+	capCall := func(cap int64, f func()) int64 {
+		if y != nil {
+			f()
+			return 0
+		}
+		n, _ := withStepCap(cap, f)
+		return n
+	}
 	n := len(c.Inputs)
 	src := make([]*trie.SlimTrie, n)
 	streams := make([][]byte, n)
 	ok := make([]bool, n)
+	refLoad := make([]int64, n)
 	disk := newDisk()
 	chunkRng := NewRng(c.PermSeeds[0] ^ 0xd15c)
 	for i := range c.Inputs {
 		sp := &c.Inputs[i]
-		t0, err0 := buildWithPerm(sp, 0, pr)
+		var t0 *trie.SlimTrie
+		var err0 error
+		buildSteps := capCall(2_000_000_000, func() { t0, err0 = buildWithPerm(sp, 0, pr) })
 		yield()
 		var b0 []byte
 		if err0 == nil {
 			b0, err0 = safeMarshal(t0)
 		}
 		for k := 0; k < 2; k++ {
-			tk, errk := buildWithPerm(sp, c.PermSeeds[2*i+k]|1, pr)
+			var tk *trie.SlimTrie
+			var errk error
+			capCall(loadCap(buildSteps), func() { tk, errk = buildWithPerm(sp, c.PermSeeds[2*i+k]|1, pr) })
 			yield()
 			var bk []byte
 			if errk == nil {
@@ -254,6 +275,18 @@ func (c *C05Scn) lifecycle(y func(), pr *c05Probe) (outs []string, viol *Violati
 		if b1, err := safeMarshal(t0); err != nil || !bytes.Equal(b1, b0) {
 			fail("marshal-unstable", "Marshal-twice", fmt.Sprintf("input %d (%s): marshalling the same instance twice gives different bytes", i, sp.summary()), digest(b0), digest(b1))
 		}
+		// reference: loading the stream into a fresh instance, alone (step count)
+		if y == nil {
+			f0 := fresh(sp.Enc)
+			var e0 error
+			var p0 string
+			refLoad[i], _ = withStepCap(refLoadCap, func() { e0, p0 = loadVia(f0, "direct", append([]byte{}, b0...)) })
+			if p0 == panStepCap {
+				fail("load-does-not-return", "load-into-fresh", fmt.Sprintf("input %d (%s): loading Marshal() output into a fresh instance did not return within %d steps", i, sp.summary(), int64(refLoadCap)), "", "")
+			} else if e0 != nil || p0 != "" {
+				fail("load-failed", "Unmarshal-into-fresh", fmt.Sprintf("input %d (%s): a stream produced by Marshal() does not load into a fresh instance: err=%v panic=%s", i, sp.summary(), e0, p0), "", "")
+			}
+		}
 		// writer persists the stream on the simulated disk (fault-free here)
 		disk.Write(fmt.Sprint("s", i), b0, func() int { return 1 + chunkRng.Intn(c.Chunk) }, -1)
 		outs = append(outs, fmt.Sprintf("input%d:%s", i, digest(b0)))
@@ -279,7 +312,13 @@ func (c *C05Scn) lifecycle(y func(), pr *c05Probe) (outs []string, viol *Violati
 	case "loaded":
 		if ok[c.StartSrc] {
 			inst = fresh(enc)
-			if err := inst.Unmarshal(read(c.StartSrc)); err != nil {
+			var err error
+			var pan string
+			capCall(loadCap(refLoad[c.StartSrc]), func() { err, pan = loadVia(inst, "direct", read(c.StartSrc)) })
+			if pan != "" && err == nil {
+				err = fmt.Errorf("panic: %s", pan)
+			}
+			if err != nil {
 				fail("load-failed", "Unmarshal", fmt.Sprintf("a stream produced by Marshal() does not load: %v", err), "", "")
 				return outs, viol
 			}
@@ -306,7 +345,9 @@ func (c *C05Scn) lifecycle(y func(), pr *c05Probe) (outs []string, viol *Violati
 			if f == nil {
 				continue
 			}
-			err, pan := loadVia(inst, "direct", append([]byte{}, f.Data...))
+			var err error
+			var pan string
+			capCall(refLoadCap, func() { err, pan = loadVia(inst, "direct", append([]byte{}, f.Data...)) })
 			pr.legacyLoads++
 			outs = append(outs, fmt.Sprintf("legacy:%v:%s", err, pan))
 			holds = -1
@@ -320,7 +361,9 @@ func (c *C05Scn) lifecycle(y func(), pr *c05Probe) (outs []string, viol *Violati
 			} else {
 				copy(b[:16], versionField("9.9.9"))
 			}
-			err, pan := loadVia(inst, "direct", b)
+			var err error
+			var pan string
+			capCall(refLoadCap, func() { err, pan = loadVia(inst, "direct", b) })
 			pr.failedLoads++
 			outs = append(outs, fmt.Sprintf("%s:%v:%s", h.Op, err != nil, pan))
 			// nothing is asserted here (C07 has its own check); the instance is
@@ -336,7 +379,17 @@ func (c *C05Scn) lifecycle(y func(), pr *c05Probe) (outs []string, viol *Violati
 				entry = "proto"
 			}
 			buf := read(i)
-			err, pan := loadVia(inst, entry, buf)
+			var err error
+			var pan string
+			if y == nil {
+				withStepCap(loadCap(refLoad[i]), func() { err, pan = loadVia(inst, entry, buf) })
+			} else {
+				err, pan = loadVia(inst, entry, buf)
+			}
+			if pan == panStepCap {
+				fail("load-does-not-return", "load-into-"+holdsKind(holds, i), fmt.Sprintf("%s: loading Marshal() of input %d (%s) into an instance that held %s did not return within %d steps; into a fresh instance it takes %d", step, i, c.Inputs[i].summary(), holdsStr(holds), loadCap(refLoad[i]), refLoad[i]), "", "")
+				break
+			}
 			if err != nil || pan != "" {
 				fail("load-failed", "Unmarshal", fmt.Sprintf("%s: a stream produced by Marshal() (%s) does not load into an instance that held %s: err=%v panic=%s", step, c.Inputs[i].summary(), holdsStr(holds), err, pan), "", "")
 				break
@@ -348,8 +401,9 @@ func (c *C05Scn) lifecycle(y func(), pr *c05Probe) (outs []string, viol *Violati
 			}
 			yield()
 			sp := &c.Inputs[i]
-			want := battery(src[i], c.Queries[i], sp.Enc, sp.ValIDs != nil, sp.complete(), y)
-			got := battery(inst, c.Queries[i], sp.Enc, sp.ValIDs != nil, sp.complete(), y)
+			var want, got string
+			wantSteps := capCall(2_000_000_000, func() { want = battery(src[i], c.Queries[i], sp.Enc, sp.ValIDs != nil, sp.complete(), y) })
+			capCall(loadCap(wantSteps), func() { got = battery(inst, c.Queries[i], sp.Enc, sp.ValIDs != nil, sp.complete(), y) })
 			if want != got {
 				oracle, where := "roundtrip-answers-differ", "load-into-"+holdsKind(holds, i)
 				if over {
